@@ -41,4 +41,20 @@ theorem request_kept_until_terminal (cfg : Manager.Cfg) (i : Manager.In) (k : Ke
     | abortedMeanwhile => exact absurd hpf hp
     | panicked => exact ⟨sw, hs, rfl, rfl⟩
 
+
+/-- counterexample to `C07.request_kept_until_terminal` as stated: the pending request equals the record in
+`last_rejected_switch`; the iteration times it out — `switch` is removed, both result keys are unchanged -/
+def cxMCfg : Manager.Cfg :=
+  { failover := true, failoverDelay := 0, failoverCooldown := 0, resetupCrashedHosts := false, semiSync := false,
+    waitCount := 0, switchoverTimeout := 0, switchoverMaxAttempts := 0 }
+def cxSw : Switch := { to := "b", initiatedAt := some 0 }
+def cxKeys : Keys := { switch := some cxSw, lastRejected := some cxSw }
+def cxMIn : Manager.In := { master := some "a", activeNodes := [], cs := [], dcs := [], now := 10, failedAt := none }
+
+theorem request_kept_counterexample :
+    cxKeys.switch = some cxSw ∧
+    ((tick cxMCfg cxMIn cxKeys).lastOk = cxKeys.lastOk ∧ (tick cxMCfg cxMIn cxKeys).lastRejected = cxKeys.lastRejected) ∧
+    cxMIn.perform ≠ .abortedMeanwhile ∧ (tick cxMCfg cxMIn cxKeys).switch = none := by
+  decide +kernel
+
 end SwitchoverLemmas
